@@ -61,4 +61,11 @@ EncodeExp(e) == e + KeyOffsetM
 DecodeCp(c) == c - KeyOffsetM
 \* code points that cannot stand in a numpy field name / a str: ':' and the surrogates
 BadCodePoint(c) == c = 58 \/ (c >= 55296 /\ c <= 57343) \/ c > 1114111
+\* code points a text file cannot carry inside the whitespace-separated header of savetxt / loadtxt:
+\* Unicode white space and line separators.  A key holding one of them may be refused by loadtxt (C20
+\* allows the error) but must never be read back as another key.
+WhiteSpaceCp == {133, 160, 5760, 8232, 8233, 8239, 8287, 12288} \cup (8192..8202)
+\* where the UTF-8 length of the code point changes (the byte-oriented key formatter of multiply)
+Utf8Boundaries == {127, 128, 2047, 2048, 65535, 65536}
+SpecialExponents == {DecodeCp(c) : c \in WhiteSpaceCp \cup Utf8Boundaries}
 =============================================================================
